@@ -171,8 +171,17 @@ fn session_sim(log: &mut EvLog, rng: &mut impl Rng, nframes: usize) {
     let mut expected_pending: Vec<u8> = vec![];
     let _ = &mut expected_pending;
     let mut view: Vec<u8> = vec![]; // bytes received but not yet consumed (harness bookkeeping from callbacks)
-    for _ in 0..nframes {
+    // a PHY that joins later (duplicated from the receiver when that has already consumed data) sees the whole
+    // stream of the bus from the beginning: its drain at the end is logged as a session of its own
+    let join_at = rng.gen_range(1..=nframes);
+    let mut late: Option<SimulatorPhy> = None;
+    let mut all_frames: Vec<Vec<u8>> = vec![];
+    for fi in 0..nframes {
+        if fi == join_at - 1 && fi > 0 {
+            late = Some(rx.duplicate("late"));
+        }
         let f = rand_frame(rng, 40);
+        all_frames.push(f.clone());
         // wait until the simulator bus is idle plus the pause it insists on
         now += profirust::time::Duration::from_micros(baud.bits_to_time(11 * 300 + 40).total_micros());
         tx.set_bus_time(now);
@@ -249,6 +258,32 @@ fn session_sim(log: &mut EvLog, rng: &mut impl Rng, nframes: usize) {
     }
     log.push(json!({"ev":"End"}));
     log.push(json!({"ev":"Reset"}));
+    if let Some(mut late) = late {
+        let mut total = 0usize;
+        for f in all_frames.iter() {
+            log.push(json!({"ev":"Send","b":f}));
+            total += f.len();
+        }
+        log.push(json!({"ev":"Arrive","n":total}));
+        for _ in 0..(all_frames.len() + 3) {
+            let pre = late.receive_data(now, |b| (0, b.to_vec()));
+            if pre.is_empty() {
+                break;
+            }
+            match call_all(&mut late, now) {
+                Ok(cbs) => {
+                    let pending = late.poll_pending_received_bytes(now);
+                    log.push(json!({"ev":"Call","fn":"all","pre":pre,"cbs":cbs,"pending":pending}));
+                }
+                Err((msg, loc)) => {
+                    log.push(json!({"ev":"Panic","msg":msg,"loc":short_loc(&loc),"during":"rx-late"}));
+                    break;
+                }
+            }
+        }
+        log.push(json!({"ev":"End"}));
+        log.push(json!({"ev":"Reset"}));
+    }
 }
 
 pub fn run(args: &Args) {
